@@ -235,3 +235,19 @@ Example c11_ex_self_send : exists s, reachable_if false ABS NOLIM react_self any
   g_ist (s_g s) = ILive /\ l_pc (g_il (s_g s)) = PSendSig CI true /\ c_q (g_ci (s_g s)) = [Some 105] /\
   c_rcvd (g_ci (s_g s)) = [Some 5].
 Proof. exact (ex_self_send ABS NOLIM). Qed.
+
+(* ---- liveness under weak fairness (Conc/ThreadQProgress.v).  An execution [r : frun] is an infinite sequence of states
+   and labels (None = nobody moves) in which every labelled position is a step of the LTS; [fair r]: the internal thread's
+   step, and every user thread's step, is eventually taken or disabled (weak fairness).  Premise as for the can-reach
+   theorems: the subclass's reaction sends replies only. ---- *)
+
+(* shutdown eventually completes: once a NULL Message is queued for (or taken by) the live internal thread, the thread
+   eventually finishes -- whatever the other threads do in between (more sends, receives, signals, ...) *)
+Theorem c11_shutdown_eventually_completes : forall react,
+  (forall x, Forall (fun cm => fst cm = CO) (fst (react x))) ->
+  forall m e (r : frun ABS NOLIM react),
+  reachable_if false ABS NOLIM react any_label m e (f_st _ _ _ r 0) -> fair ABS NOLIM react r ->
+  forall i, g_ist (s_g (f_st _ _ _ r i)) = ILive -> null_seen (f_st _ _ _ r i) ->
+  exists j, i <= j /\ g_ist (s_g (f_st _ _ _ r j)) = IExited.
+Proof. exact (fun react H => shutdown_eventually_completes ABS NOLIM react eq_refl H). Qed.
+Print Assumptions c11_shutdown_eventually_completes.
